@@ -30,7 +30,7 @@ TouchstoneKinds == {"s1p", "s2p", "s3p", "s4p", "ts"}
 Mutations == {"none", "tokDel", "tokDup", "tokSwap", "numPerturb", "kwReorder",
               "lineDel", "lineDup", "truncate", "yamlKind", "randBytes",
               "insert", "splice", "kwRepeat", "yamlAlias",
-              "tokLen", "freqEq"}
+              "tokLen", "freqEq", "kwRestate"}
 
 (* yamlKind (node kind substitution) and yamlAlias (anchors / aliases:    *)
 (* cycles, shared subtrees, deep nesting) need a YAML document             *)
@@ -38,7 +38,7 @@ Mutations == {"none", "tokDel", "tokDup", "tokSwap", "numPerturb", "kwReorder",
 (* zero or negative) needs a format with frequency entries                 *)
 Applicable(kind, mut) ==
     /\ mut \in {"yamlKind", "yamlAlias"} => kind \in {"vnacal", "yamlfile", "yamlstring"}
-    /\ mut = "freqEq" => kind \in DataKinds \cup {"vnacal"}
+    /\ mut \in {"freqEq", "kwRestate"} => kind \in DataKinds \cup {"vnacal"}
 
 -----------------------------------------------------------------------------
 (* (1) the outcome contract                                                *)
